@@ -357,15 +357,31 @@ def _edits_single(e1: int, e2: int, order: int) -> bool:
     return result(ok, True)
 
 
-def _retype(site: int, w: int, other: bool, order: int) -> bool:
+DEFAULT_MODES = ("as in the base schema", "default added", "default removed", "default changed")
+DEFAULT_CHANGE_CLASS = {"arg": "FieldArgumentDefaultValueChange", "input": "InputFieldDefaultValueChange", "dirarg": "DirectiveArgumentDefaultValueChange"}
+
+
+def literal_for(w, base, variant):
+    lit = {"Int": ("7", "8"), "String": ('"q"', '"r"'), "In": ("{f: 1}", "{f: 2}")}[base][variant]
+    for c in w:
+        if c == "[":
+            lit = "[%s]" % lit
+    return lit
+
+
+def _retype(site: int, w: int, other: bool, order: int, dflt: int = 0) -> bool:
     """
-    pre: 0 <= site < len(RETYPE_SITES) and 0 <= w < len(RETYPE_WRAPS) and 0 <= order <= 1
+    pre: 0 <= site < len(RETYPE_SITES) and 0 <= w < len(RETYPE_WRAPS) and 0 <= order <= 1 and 0 <= dflt < len(DEFAULT_MODES)
+    pre: shard_of(site * 4 + dflt)
     post: _
     """
     s = pick(site, RETYPE_SITES)
     nw = pick(w, RETYPE_WRAPS)
     oth = True if other else False
     o = pick(order, ORDERS)
+    DM = concrete_int(dflt, 0, len(DEFAULT_MODES) - 1)
+    if DM and s[0] == "field":
+        return result(True, False)
     with untraced():
         m_old, m_new = base_model(), base_model()
         kind = s[0]
@@ -390,9 +406,16 @@ def _retype(site: int, w: int, other: bool, order: int) -> bool:
         else:
             m_new["@" + s[1]]["args"][s[2]]["type"] = new_t
             names = [s[1], s[2]]
+        if DM:
+            # the same input position ALSO gets / loses / changes its default in the same step
+            def slot(m):
+                return m[s[1]]["fields"][s[2]]["args"][s[3]] if kind == "arg" else (m[s[1]]["fields"][s[2]] if kind == "input" else m["@" + s[1]]["args"][s[2]])
+            slot(m_old)["default"] = None if DM == 1 else literal_for(ow, base, 0)
+            slot(m_new)["default"] = None if DM == 2 else literal_for(nw, nbase, 1)
         if new_t == old_t:
             return result(True, False)
         try:
+            build_schema(render(m_old)).validate()
             build_schema(render(m_new)).validate()
         except Exception:
             return result(True, False)
@@ -409,6 +432,10 @@ def _retype(site: int, w: int, other: bool, order: int) -> bool:
                 # an unsafe retyping must be reported as BREAKING
                 _, _, ch = changes_of(render(m_old), render(m_new))
                 ok = any(c[0] == s[-1] and c[2] >= int(SchemaChangeSeverity.BREAKING) for c in ch)
+        if ok and DM:
+            # ... and the default edit is reported too, naming the element
+            _, _, ch = changes_of(render(m_old), render(m_new))
+            ok = any(c[0] == DEFAULT_CHANGE_CLASS[kind] and all(n in c[1] for n in names) for c in ch)
     return result(ok, True)
 
 
@@ -430,8 +457,9 @@ CONDITIONS = [
         witness={"e1": 3, "e2": -1, "order": 0},
     ),
     Cond(
-        name="retype", fn=_retype, quick=100, thorough=300, per_path=60, shards_quick=1,
-        bound="7 retyping sites (object field, interface-typed field, arguments, input fields, directive argument) x 8 new wrapper lists x same/other named type x 2 orders",
-        symbolic={"site,w,other,order": "choice"}, witness={"site": 0, "w": 2, "other": False, "order": 0},
+        name="retype", fn=_retype, quick=100, thorough=300, per_path=60, shards_quick=16, shards_thorough=16,
+        bound="7 retyping sites (object field, interface-typed field, arguments, input fields, directive argument) x 8 new wrapper lists x same/other named type x 2 orders "
+              "x what happens to the default of the SAME input position in the same step (unchanged / added / removed / changed): the unsafe retyping is reported BREAKING and the default edit is reported too",
+        symbolic={"site,w,other,order,dflt": "choice"}, witness={"site": 0, "w": 2, "other": False, "order": 0, "dflt": 0},
     ),
 ]
